@@ -721,6 +721,23 @@ def directed_c06(chk):
                 chk.property_violation(casej, {'what': 'decode raised %s (only ProphyError is allowed)' % name, 'exc': name}, classify_c06)
             elif valid:
                 chk.property_violation(casej, {'what': 'a valid encoding held by a %s is refused: %s' % (note, str(ex)[:100])})
+    # a fixed array is not built for an input that cannot hold it (D191): time and memory follow the input, not the schema
+    import resource
+    big = handwritten([('Pixel', [('v', 'prophy.u8')]), ('Frame', [('id', 'prophy.u32'), ('px', 'prophy.array(Pixel, size=500000)')]),
+                       ('Plain', [('id', 'prophy.u32'), ('raw', 'prophy.array(prophy.u8, size=40000000)')]),
+                       ('Huge', [('id', 'prophy.u32'), ('raw', 'prophy.array(prophy.u8, size=1 << 40)')]),
+                       ('Lim', [('n', 'prophy.u32'), ('raw', 'prophy.array(prophy.u16, bound="n", size=20000000)')])])
+    for name in ('Frame', 'Plain', 'Huge', 'Lim'):
+        casej = {'schema': 'hand-written descriptor with a large fixed / limited array', 'type': name, 'data': '00000000', 'endianness': '<', 'directed': 'big-fixed-array'}
+        chk.count((name, 'big-fixed-array'), True)
+        chk.bump('directed:big-fixed-array')
+        before = resource.getrusage(resource.RUSAGE_SELF).ru_maxrss
+        res = with_timeout(5, lambda name=name: big[name]().decode(b'\x00\x00\x00\x00', '<'))
+        grown = resource.getrusage(resource.RUSAGE_SELF).ru_maxrss - before
+        if res[0] == 'timeout' or grown > 32 * 1024:
+            chk.property_violation(casej, {'what': 'refusing a 4-byte input took %s and about %d MiB' % ('more than 5 s of CPU time' if res[0] == 'timeout' else 'little time', grown // 1024)})
+        elif res[0] == 'ok' or res[1] != 'ProphyError':
+            chk.property_violation(casej, {'what': 'decode of 4 bytes %s' % ('returned' if res[0] == 'ok' else 'raised %s' % res[1])})
     # nesting depth: struct S0 { u8 a; }; struct Sk { S(k-1) a; }; every message of every Sk is one byte long
     import prophy
     for depth in (100, 300, 500):
